@@ -193,7 +193,12 @@ impl InstructionGenerator {
         self.label("do", pos);
         self.generate_expression_instructions(condition);
         if kind == DoLoopConditionKind::Until {
-            self.push(Instruction::NotA, pos);
+            // the logical negation of the condition (true exactly when it is zero), so that
+            // UNTIL leaves the loop for any non-zero value; the bitwise `NotA` does that only
+            // for 0 and -1 (`LOOP UNTIL 5` never ended)
+            self.push(Instruction::CopyAToB, pos);
+            self.push_load(Variant::VInteger(0), pos);
+            self.push(Instruction::Equal, pos);
         }
         self.jump_if_false("loop", pos);
         self.visit(statements);
@@ -214,7 +219,12 @@ impl InstructionGenerator {
         self.mark_statement_address(); // to be able to resume on error
         self.generate_expression_instructions(condition);
         if kind == DoLoopConditionKind::Until {
-            self.push(Instruction::NotA, pos);
+            // the logical negation of the condition (true exactly when it is zero), so that
+            // UNTIL leaves the loop for any non-zero value; the bitwise `NotA` does that only
+            // for 0 and -1 (`LOOP UNTIL 5` never ended)
+            self.push(Instruction::CopyAToB, pos);
+            self.push_load(Variant::VInteger(0), pos);
+            self.push(Instruction::Equal, pos);
         }
         self.jump_if_false("loop", pos);
         self.jump("do", pos);
